@@ -1745,6 +1745,13 @@ func paragraphAssertRegion(p *Program, fn *ssa.Function, v ssa.Value, at ssa.Ins
 		if !ok || !isBodyElements(p, ia.X) || ia.Index != v {
 			return
 		}
+		// …and v walks over the elements one by one: the induction variable of a loop that starts at
+		// the beginning (−1 / 0) and advances by one.  A position that was computed (paragraph index
+		// plus the number of tables seen) and merely verified to hold *a* paragraph can be the wrong
+		// paragraph.
+		if !isInductionVar(v) {
+			return
+		}
 		for _, u := range *ta.Referrers() {
 			ex, ok := u.(*ssa.Extract)
 			if !ok || ex.Index != 1 || ex.Referrers() == nil {
@@ -1760,6 +1767,40 @@ func paragraphAssertRegion(p *Program, fn *ssa.Function, v ssa.Value, at ssa.Ins
 		}
 	})
 	return res
+}
+
+// isInductionVar: v is i (or i+1 in the range lowering) of a loop `for i := 0|−1; …; i++`.
+func isInductionVar(v ssa.Value) bool {
+	phiOK := func(ph *ssa.Phi) bool {
+		// one entry edge with the start value, every back edge (there are several when the body has
+		// `continue` paths) carries phi+1
+		constEdge, stepEdge := false, false
+		for _, e := range ph.Edges {
+			if c, ok := constInt(e); ok && (c == 0 || c == -1) {
+				constEdge = true
+				continue
+			}
+			if bo, ok := e.(*ssa.BinOp); ok && bo.Op == token.ADD && bo.X == ssa.Value(ph) {
+				if c, ok := constInt(bo.Y); ok && c == 1 {
+					stepEdge = true
+					continue
+				}
+			}
+			return false
+		}
+		return constEdge && stepEdge
+	}
+	switch x := v.(type) {
+	case *ssa.Phi:
+		return phiOK(x)
+	case *ssa.BinOp:
+		if ph, ok := x.X.(*ssa.Phi); ok && x.Op == token.ADD {
+			if c, ok := constInt(x.Y); ok && c == 1 {
+				return phiOK(ph)
+			}
+		}
+	}
+	return false
 }
 
 // removesAtParam: fn splices Body.Elements at its integer parameter (directly or by delegating);
